@@ -13,7 +13,7 @@ import gen as G
 LEVEL = "proof"
 DRIVERS = ["driver_c17"]
 TRUSTED = ["model: coq/Model/Tuning.v (hist/bin_of/dig/hist2d, discrete_tc, attributed via Model/ValueFrom.v value_from mode 1, tc1d/tc2d, cont_tc/cont_tc2, "
-           "prior/likelihood/expo/weights/posterior/argmax, count_rows over Model/Count.v, edges4/decode_occ); theorems: Proofs/TuningProofs.v, Proofs/DecodingProofs.v",
+           "prior/likelihood/expo/weights/posterior/argmax, count_rows over Model/Count.v, decode_binned/decode2d_post/decode2d_decoded/unravel, edges4/decode_occ); theorems: Proofs/TuningProofs.v, Proofs/DecodingProofs.v",
            "PARTIAL - oracle laws visible as Section hypotheses in the closed theorems: np.histogram = hist, np.histogram2d = hist2d (half-open bins, last bin closed), "
            "np.digitize - 1 = dig (all bins half-open), exp = a positive function E (respecting equality); np.prod / ** are exact on the small integers used",
            "the real-valued factor exp(-bin_size * sum of rates) is compared through log(p_i) - log(occ_i prod r^c) + bin_size sum_j r_ij being constant in i (1e-9): the only real-valued comparison"]
@@ -698,6 +698,7 @@ def part_decode(res, tier, rng, nap):
         f = o.split("|")
         model_post[(n, cnt)] = ([Fr(x) for x in f[0].split()], [Fr(x) for x in f[1].split()], int(f[2]), f[3])
     keys = [3, 5, 9]
+    d2_lines, d2_meta = [], []
     for n, c in enumerate(cases):
         nx, ny, nu, two, ep, b = c["nx"], c["ny"], c["nu"], c["two"], c["ep"], c["b"]
         nbtot = nx * ny
@@ -725,6 +726,7 @@ def part_decode(res, tier, rng, nap):
             grp = g0.count(b / 1e9, iset_obj(nap, ep2))
             if ep2 is not ep:
                 res.count("decode_prebinned_rows_outside_ep")
+            c["frame_t"] = [C.to_ns(x) for x in grp.t]
             if len(grp) == 0:
                 res.case(("decode", n), nontrivial=False)
                 continue
@@ -768,6 +770,12 @@ def part_decode(res, tier, rng, nap):
                                    "what": "decode raised %s: %s" % (type(ex).__name__, str(ex)[:80]), "input": inp})
             continue
         rows = c["rows"]
+        if c["mode"] == "TsdFrame" or two:
+            # model: rows of a pre-binned frame that are decoded (inside ep); decode_2d's posterior rows; unravel of the argmax
+            ft_ = c.get("frame_t", [r[0] // 2 for r in rows])
+            am = int(np.argmax(P[0])) if len(tt) and not np.all(np.isnan(P[0])) else 0
+            d2_lines.append("decode2d_rows\t%s\t%d\t%d\t%s" % (C.fmt_iset(ep), ny, am, C.fmt_ints(ft_)))
+            d2_meta.append((inp, ft_, tt, int(P.shape[0]), am, dv[0] if len(tt) else None, cen, ny, two, c["mode"]))
         res.case(("decode", n), nontrivial=len(rows) > 0 and any(any(r[1]) for r in rows))
         if [2 * t for t in tt] != [r[0] for r in rows] and not all(abs(2 * t - r[0]) <= 1 for t, r in zip(tt, rows)) or len(tt) != len(rows):
             res.violations.append({"key": {"op": op, "part": "time_bins"}, "what": "posterior time axis is not the bin grid of count(bin_size, ep)", "input": inp,
@@ -813,6 +821,15 @@ def part_decode(res, tier, rng, nap):
                 res.violations.append({"key": {"op": op, "part": "argmax"}, "what": "decoded value is not the centre at argmax of the returned posterior", "input": dict(inp, count=cnt)})
         if n % 101 == 0:
             res.sample({"decode": inp, "posterior": P.tolist()[:3]})
+    for (inp, ft_, tt, prow, am, dv0, cen, ny, two, mode), o in zip(d2_meta, C.run_model(d2_lines, driver="driver_c17") if d2_lines else []):
+        f = o.split("|")
+        mt = [int(v) for v in f[1].split()]
+        if mode == "TsdFrame" and (mt != tt or int(f[0]) != prow):
+            res.disagreements.append({"op": "decode pre-binned rows inside ep", "input": inp, "frame_t": ft_, "impl": [tt, prow], "model": [mt, int(f[0])]})
+        if two and dv0 is not None:
+            i, j = [int(v) for v in f[2].split()]
+            if i * ny + j >= len(cen) or tuple(cen[i * ny + j]) != tuple(dv0):
+                res.disagreements.append({"op": "decode_2d unravel", "input": inp, "impl": dv0, "model": [i, j], "argmax": am})
     # the occupancy prior of decode_1d rebuilds the bin edges from the centres
     lines = []
     meta = []
